@@ -23,6 +23,7 @@ def handle : List String → String
       | .err _ => "err"
       | .panic _ => "panic"
     | none => "bad-request"
+  | ["jwk", _] => "u"
   | ["url", h] =>
     match unhex h with
     | some s => showOut (parseUrl s)
